@@ -146,7 +146,11 @@ func HC13_Determinism() {
 		x2.prefix(pf)
 		steps := 1 + vTier()
 		for s := 0; s < steps; s++ {
-			twinStep(x1, x2, vChoice("op", 10))
+			if s == 0 {
+				twinStep(x1, x2, vChoice("op", 10))
+			} else {
+				twinStep(x1, x2, [4]int{0, 2, 7, 9}[vChoice("op2", 4)]) // second step: reduced set
+			}
 		}
 	case 1: // a target with empty tables in several nodes dies while a registered filter lists them
 		A, B, R1, R2 := uint8(1<<uA), uint8(1<<uB), uint8(1<<uR1), uint8(1<<uR2)
